@@ -21,6 +21,16 @@ def boundary_values():
             v = rj + d
             if 0 <= v < 2 ** 32:
                 vals.add(v)
+    for k in range(1, 46):                         # ALPHA * r just past k * 2^32 (a 32-bit accumulator wraps to a small value)
+        base = (k << 32) // 45
+        for d in range(-3, 60):
+            v = base + d
+            if 0 <= v < 2 ** 32:
+                vals.add(v)
+    for k in range(1, 700):                        # and just past k * 2^16
+        base = (k << 16) // 45
+        for d in range(-1, 3):
+            vals.add(base + d)
     for j in range(0, 300000):
         vals.add((j * 14321) % (2 ** 32))          # deterministic spread
         vals.add((2 ** 32 - 1) - j * 7)
